@@ -821,7 +821,14 @@ impl ErasedNode for Node {
             // | Kind::If_then_else i -> node.height > i.test_change.height
             // | Join_main j -> node.height > j.lhs_change.height
         };
-        if can_recompute_now || parent.height() <= state.recompute_heap.min_height() {
+        /* [can_recompute_now] only says that [parent] has no other child to wait for and that
+        its scope is lower than [child]. That is not enough when [child] itself was
+        recomputed directly (climbing a chain of single-child nodes): the recompute heap
+        may still hold lower nodes, e.g. the lhs-change node of [parent]'s scope, which
+        would invalidate [parent]. So also require that nothing lower than [child] is
+        pending. */
+        let min_height = state.recompute_heap.min_height();
+        if (can_recompute_now && child.height() <= min_height) || parent.height() <= min_height {
             /* If [parent.height] is [<=] the height of all nodes in the recompute heap
             (possibly because the recompute heap is empty), then we can recompute
             [parent] immediately and save adding it to and then removing it from the
